@@ -354,8 +354,13 @@ func c06(c *core.Check) {
 // c06Trivia: comments are to the parser what white space is (CSS Syntax strips comments in the tokenizer; this parser
 // keeps them as tokens when asked to, so every place that steps over white space must step over comments too).
 func c06Trivia(c *core.Check) {
-	p := c.Prog
 	r := c.Rule("R5", "white space and comments are skipped together: in the parsing code, every switch with a case for the white-space token (kind or type) has a case for the comment token, and every condition that excludes white space excludes comments in the same condition", 6)
+	triviaRule(c, r)
+}
+
+// triviaRule is shared by C06 (parsing) and C08 (a comment is one more spelling of the same declaration).
+func triviaRule(c *core.Check, r *core.Rule) {
+	p := c.Prog
 	scope := map[string]map[string]bool{
 		"css/parser": {"parser.go": true, "tokenizer.go": true, "colors.go": true, "nth.go": true},
 		"html/tree":  {"style.go": true},
@@ -421,6 +426,17 @@ func c06Trivia(c *core.Check) {
 						}
 					case *ast.BinaryExpr:
 						// a maximal && / || chain comparing with the white-space kind
+						if (y.Op == token.EQL || y.Op == token.NEQ) && mentions(y, "KWhitespace") {
+							// a lone comparison with the white-space kind (not part of a chain, which is handled below)
+							n++
+							key := fmt.Sprintf("%s.%s | %s", pkg, fd.Name.Name, p.NodeText(y))
+							if why, ok := triviaLone[key]; ok {
+								r.Skip(key, p.Pos(y.Pos()), "not decided: "+why)
+							} else {
+								r.Fail(key, p.Pos(y.Pos()), "the test steps over (or looks for) white space alone: a comment at that place changes the parse")
+							}
+							return false
+						}
 						if y.Op != token.LAND && y.Op != token.LOR {
 							return true
 						}
@@ -462,3 +478,6 @@ func c06Trivia(c *core.Check) {
 		r.Unknown("white-space tests found", "-", fmt.Sprintf("%d switches / conditions found, 6 expected", n))
 	}
 }
+
+// triviaLone: lone tests of the white-space kind that are right as they are, read one by one.
+var triviaLone = map[string]string{}
